@@ -8,7 +8,7 @@ C09 (b): every field `Tracer::to_field` emits lies in the round-trip domain `Sch
 (`C07.WF`, the reachable-state invariant of `from_samples`), options whose overwrites are themselves in the domain
 (`OwOK`; an overwrite replaces the traced field as given), the field is `schemaOK` — for EVERY option, `allow_null_fields`
 included: a `Null` field is always emitted nullable, also for a position no sample reached (`Tracer::Unknown`; repo fix
-01bb847 — before it `UnknownTracer::to_field` kept the unset nullable flag and the JSON form read the field back nullable:
+5168cf7 — before it `UnknownTracer::to_field` kept the unset nullable flag and the JSON form read the field back nullable:
 `Props.C09.C09_unseen_position_outside_pinned`).
 The constructor lemmas `ok_*` are shared with the `from_type` side (Lemmas/C09TracedTy.lean).
 -/
